@@ -981,6 +981,22 @@ bool TypeAuditor::ViFilter(Cursor iter) {
   }
   const auto& argument = std::get<Typification>(maybeArgument.value());
   if (argument.IsAnyType() || (argument.IsCollection() && argument.B().Base().IsAnyType())) {
+    // Note: components of the argument are unknown, but parameters still should be typed sets
+    for (Index child = 0; child + 1 < iter.ChildrenCount(); ++child) {
+      const auto param = ChildType(iter, child);
+      if (!param.has_value()) {
+        return false;
+      }
+      const auto& paramType = std::get<Typification>(param.value());
+      if (!paramType.IsCollection()) {
+        OnError(
+          SemanticEID::typesNotEqual,
+          iter(child).pos.start,
+          Typification::EmptySet(), paramType
+        );
+        return false;
+      }
+    }
     return SetCurrent(Typification::EmptySet());
   }
   if (!argument.IsCollection() || !argument.B().Base().IsTuple()) {
